@@ -115,6 +115,9 @@ def fault_enumeration(ctx):
                         jobs.append((by[(n, kind, "io")], (k, kindname, 0), None))
                     jobs.append((ref, (k, "SHORT", 0), None))
                     jobs.append((ref, (k, "SHORT", 1), None))
+                    if n > 0:       # a short count, then the rest of the batch fails: partial progress is still a failure
+                        jobs.append((by[(n, kind, "io")], (k, "SHORTERR", 0), None))
+                        jobs.append((by[(n, kind, "io")], (k, "SHORTERR", 1), None))
                 elif call == "close":
                     jobs.append((by[(n, kind, "io")], (k, "EIO", 0), None))
 
@@ -177,7 +180,7 @@ def main(ctx, args):
                 gst["other"] += 1
     cov = {"evaluations": fst["runs"] + gst["writes"], "distinct_nontrivial": fst["failing_runs"] + fst["short_runs"] + gst["guarded"],
            "rule": "fault enumeration: every position of the recorded open/write/ftruncate/close sequence of the command under test "
-                   "x {EACCES, ENOSPC} (open), {EIO, ENOSPC, EINTR, short by half, short to 1 byte} (each write), {EIO} (close), for "
+                   "x {EACCES, ENOSPC} (open), {EIO, ENOSPC, EINTR, short by half, short to 1 byte, short and then ENOSPC on the rest} (each write), {EIO} (close), for "
                    "4 buffer sizes x 5 commands; guards: write commands of seeded Gen_Bufs behaviours with files touched / rewritten "
                    "between commands; non-trivial = a run with an injected fault, or a write refused by a guard",
            "samples": samples, "exhaustive": True, "fault_stats": fst, "guard_stats": gst,
